@@ -462,16 +462,35 @@ func randOps(r *vh.RNG, n int, allowReload bool, size int) []opRec {
 			} else if r.Intn(4) == 0 {
 				ops = append(ops, opRec{Op: "reloadself"})
 			} else {
-				sz := vh.Pick(r, []int{0, 1, 2, 3, 7, 8, 9, 16, size})
+				sz := vh.Pick(r, []int{0, 1, 2, 3, 4, 7, 8, 9, 16, 32, size})
 				if sz > 64 {
 					sz = 64
 				}
-				b := make([]byte, sz)
-				if r.Bool() {
-					b = r.Bytes(sz)
-				}
 				nh := uint32(r.Intn(51))
-				ops = append(ops, opRec{Op: "reload", Msg: recOf(b, nh, vh.Pick(r, wrapTweaks(r, nh)), uint32(r.Intn(3)))})
+				if r.Bool() {
+					nh = uint32(r.Intn(7))
+				}
+				tw := vh.Pick(r, wrapTweaks(r, nh))
+				fl := uint32(r.Intn(3))
+				switch r.Intn(4) {
+				case 0: // all-zero array
+					ops = append(ops, opRec{Op: "reload", Msg: recOf(make([]byte, sz), nh, tw, fl)})
+				case 1: // all-ones array ("match everything")
+					ops = append(ops, opRec{Op: "reload", Msg: recOf(filled(sz, 0xff), nh, tw, fl)})
+				case 2: // random bits
+					ops = append(ops, opRec{Op: "reload", Msg: recOf(r.Bytes(sz), nh, tw, fl)})
+				default: // populated by the reference with items that are queried afterwards
+					var its [][]byte
+					for k := 0; k < 1+r.Intn(3); k++ {
+						it := itemOfLen(r, vh.Pick(r, itemLens))
+						its = append(its, it)
+					}
+					ops = append(ops, opRec{Op: "reload", Msg: popMsg(sz, nh, tw, fl, its)})
+					for _, it := range its {
+						ops = append(ops, opRec{Op: "matches", Data: vh.Hex(it)})
+						added = append(added, opRec{Op: "add", Data: vh.Hex(it)})
+					}
+				}
 			}
 		default:
 			o := opRec{Op: "add", Data: vh.Hex(itemOfLen(r, r.Intn(40)))}
@@ -479,6 +498,39 @@ func randOps(r *vh.RNG, n int, allowReload bool, size int) []opRec {
 		}
 	}
 	return ops
+}
+
+// every power of two up to the wire limit with its neighbours, plus the limit itself
+var pow2Sizes = func() []int {
+	var out []int
+	seen := map[int]bool{}
+	for k := 0; k <= 15; k++ {
+		for _, d := range []int{-1, 0, 1} {
+			n := (1 << k) + d
+			if n >= 1 && n <= 36000 && !seen[n] {
+				seen[n] = true
+				out = append(out, n)
+			}
+		}
+	}
+	return append(out, 35999, 36000)
+}()
+
+func filled(n int, b byte) []byte {
+	out := make([]byte, n)
+	for i := range out {
+		out[i] = b
+	}
+	return out
+}
+
+// popMsg: a filterload populated by the REFERENCE (as a conforming peer would send it)
+func popMsg(size int, nh, tweak, flags uint32, items [][]byte) *msgRec {
+	ref := &refFilter{loaded: true, bits: make([]bool, 8*size), nHash: nh, tweak: tweak, flags: flags}
+	for _, it := range items {
+		ref.insert(it)
+	}
+	return recOf(ref.bytes(), nh, tweak, flags)
 }
 
 func murmurCase(seed uint32, data []byte, corr bool) {
@@ -598,6 +650,26 @@ func coreVectors() {
 	}
 }
 
+// newFilterThenReload: a filter straight from NewFilter (all-zero) that is Reloaded with a peer's populated
+// filterload must answer for the new contents
+func newFilterThenReload(r *vh.RNG) {
+	for j := 0; j < 12; j++ {
+		f := bloom.NewFilter(uint32(1+r.Intn(20)), r.U32(), vh.Pick(r, []float64{0.5, 0.01, 0.0001}), wire.BloomUpdateAll)
+		nh := uint32(1 + r.Intn(6))
+		tw := r.U32()
+		its := [][]byte{r.Bytes(20), r.Bytes(32)}
+		m := popMsg(vh.Pick(r, []int{1, 3, 8, 32}), nh, tw, 1, its)
+		f.Reload(mkMsg(m))
+		rep.Count("history:newfilter-reload", fmt.Sprintf("nfr%d", j), true)
+		for _, it := range its {
+			if !f.Matches(it) {
+				rep.Violate("C09:bip37:matches", "Matches disagrees with the BIP37 reference",
+					map[string]interface{}{"scenario": "NewFilter then Reload(populated filterload) then Matches(member)", "reloaded": m, "item": vh.Hex(it), "got": false, "bip37": true})
+			}
+		}
+	}
+}
+
 func main() {
 	cfg = vh.ParseFlags("C09")
 	rep = vh.NewReport(cfg)
@@ -649,7 +721,7 @@ func main() {
 		if i%20 == 0 {
 			n = r.Intn(600)
 		}
-		murmurCase(r.U32(), r.Bytes(n), corrAll && i < cfg.Scale(150, 1200))
+		murmurCase(r.U32(), r.Bytes(n), corrAll && i < cfg.Scale(150, 600))
 	}
 
 	// --- bit indices: sizes x wrapping tweaks x hash numbers
@@ -671,11 +743,12 @@ func main() {
 		// a tweak that makes exactly this hash number wrap (or just not)
 		p := i * 0xFBA4C795
 		tw := vh.Pick(r, []uint32{-p, -p - 1, -p + 1, r.U32(), r.U32()})
-		bitIdxCase(sz, tw, i, itemOfLen(r, vh.Pick(r, itemLens)), corrAll && j < cfg.Scale(100, 800))
+		bitIdxCase(sz, tw, i, itemOfLen(r, vh.Pick(r, itemLens)), corrAll && j < cfg.Scale(100, 400))
 	}
 
 	// --- histories
 	coreVectors()
+	newFilterThenReload(rng.Fork("nfreload"))
 	r = rng.Fork("hist")
 	// every size x every hash-function count 0..50: insert items of every length class, query them
 	for _, sz := range sizes {
@@ -691,7 +764,7 @@ func main() {
 			idx := vh.Pick(r, []uint32{0, 1, 0x01020304, 0xffffffff})
 			h.Ops = append(h.Ops, opRec{Op: "addoutpoint", Data: txid, Index: idx}, opRec{Op: "matchesoutpoint", Data: txid, Index: idx},
 				opRec{Op: "matches", Data: vh.Hex(refOutpoint(mustHex(txid), idx))}, opRec{Op: "matches", Data: vh.Hex(r.Bytes(20))})
-			corr := corrAll && (sz != 36000 || nh%10 == 0 || nh == 49 || cfg.Thorough()) && (cfg.Thorough() || int(nh)%3 == sz%3 || nh <= 1 || nh >= 49)
+			corr := corrAll && (sz != 36000 || nh%10 == 0 || nh == 49) && (cfg.Thorough() || int(nh)%3 == sz%3 || nh <= 1 || nh >= 49)
 			runHistory(h, corr, "grid")
 		}
 	}
@@ -721,7 +794,68 @@ func main() {
 			h.Init = recOf(b, k, vh.Pick(r, wrapTweaks(r, k)), uint32(r.Intn(3)))
 		}
 		h.Ops = randOps(r, 3+r.Intn(14), true, sz)
-		runHistory(h, corrAll && j < cfg.Scale(330, 2500), "random")
+		runHistory(h, corrAll && j < cfg.Scale(300, 1200), "random")
+	}
+	// power-of-two sizes and their neighbours: bit numbers, and a filter populated by the REFERENCE queried
+	// through the implementation (what a peer's filterload looks like)
+	for si, sz := range pow2Sizes {
+		for t := 0; t < 3; t++ {
+			i := uint32(r.Intn(50))
+			p := i * 0xFBA4C795
+			bitIdxCase(sz, vh.Pick(r, []uint32{0, -p, -p - 1, r.U32()}), i, itemOfLen(r, vh.Pick(r, itemLens)), corrAll && (t == 0 || cfg.Thorough()))
+		}
+		nhf := uint32(1 + r.Intn(8))
+		tw := vh.Pick(r, wrapTweaks(r, nhf))
+		var its [][]byte
+		h := history{}
+		for k := 0; k < 3; k++ {
+			it := itemOfLen(r, vh.Pick(r, itemLens))
+			its = append(its, it)
+		}
+		h.Init = popMsg(sz, nhf, tw, 0, its)
+		for _, it := range its {
+			h.Ops = append(h.Ops, opRec{Op: "matches", Data: vh.Hex(it)})
+		}
+		extra := itemOfLen(r, 20)
+		h.Ops = append(h.Ops, opRec{Op: "matches", Data: vh.Hex(r.Bytes(20))}, opRec{Op: "add", Data: vh.Hex(extra)}, opRec{Op: "matches", Data: vh.Hex(extra)})
+		runHistory(h, corrAll && (sz <= 1100 || si%6 == 0 || cfg.Thorough()), "refpop")
+	}
+	// Reload over an all-zero / all-ones / fresh filter WITHOUT Unload in between (stale cached summaries)
+	for j := 0; j < cfg.Scale(60, 600); j++ {
+		sz := vh.Pick(r, []int{1, 2, 3, 4, 8, 9, 16, 33, 64})
+		nh0 := uint32(1 + r.Intn(6))
+		var h history
+		switch j % 3 {
+		case 0:
+			h.Init = recOf(make([]byte, sz), nh0, r.U32(), uint32(r.Intn(3)))
+		case 1:
+			h.Init = recOf(filled(sz, 0xff), nh0, r.U32(), uint32(r.Intn(3)))
+		default:
+			h.Init = recOf(r.Bytes(sz), nh0, r.U32(), uint32(r.Intn(3)))
+		}
+		if r.Bool() {
+			h.Ops = append(h.Ops, opRec{Op: "matches", Data: vh.Hex(r.Bytes(8))})
+		}
+		sz2 := vh.Pick(r, []int{1, 2, 3, 4, 8, 9, 16, 33, 64})
+		nh2 := uint32(1 + r.Intn(6))
+		tw2 := vh.Pick(r, wrapTweaks(r, nh2))
+		its := [][]byte{itemOfLen(r, vh.Pick(r, itemLens)), itemOfLen(r, 20)}
+		switch (j / 3) % 3 {
+		case 0:
+			h.Ops = append(h.Ops, opRec{Op: "reload", Msg: popMsg(sz2, nh2, tw2, 1, its)})
+		case 1:
+			h.Ops = append(h.Ops, opRec{Op: "reload", Msg: recOf(make([]byte, sz2), nh2, tw2, 1)})
+		default:
+			h.Ops = append(h.Ops, opRec{Op: "reload", Msg: recOf(filled(sz2, 0xff), nh2, tw2, 1)})
+		}
+		y := itemOfLen(r, vh.Pick(r, itemLens))
+		h.Ops = append(h.Ops, opRec{Op: "matches", Data: vh.Hex(its[0])}, opRec{Op: "matches", Data: vh.Hex(its[1])},
+			opRec{Op: "add", Data: vh.Hex(y)}, opRec{Op: "matches", Data: vh.Hex(y)}, opRec{Op: "matches", Data: vh.Hex(r.Bytes(12))})
+		if r.Bool() { // and once more over the now populated filter
+			h.Ops = append(h.Ops, opRec{Op: "reload", Msg: recOf(make([]byte, sz), nh0, r.U32(), 0)}, opRec{Op: "matches", Data: vh.Hex(y)},
+				opRec{Op: "add", Data: vh.Hex(y)}, opRec{Op: "matches", Data: vh.Hex(y)})
+		}
+		runHistory(h, corrAll && j < cfg.Scale(60, 300), "reload-stale")
 	}
 	// unloaded filters: no reload at all
 	for j := 0; j < cfg.Scale(20, 200); j++ {
@@ -761,7 +895,7 @@ func main() {
 	for j := 0; j < ns; j++ {
 		e := vh.Pick(r, []uint32{uint32(r.Intn(20)), uint32(r.Intn(100000)), r.U32()})
 		p := vh.Pick(r, []float64{math.Float64frombits(r.U64()), float64(r.Intn(1000001)) / 1e6, math.Pow(10, -float64(r.Intn(12))) * (0.5 + float64(r.Intn(1000))/1000)})
-		sizingCase(e, r.U32(), p, uint32(r.Intn(3)), corrAll && j < cfg.Scale(60, 600))
+		sizingCase(e, r.U32(), p, uint32(r.Intn(3)), corrAll && j < cfg.Scale(60, 300))
 	}
 	rep.Extra["sizing_observed"] = sizingTable
 	rep.Extra["note_sizing"] = "float64->uint32 conversion of out-of-range values (elements*ln(fprate) beyond 2^32, NaN from elements=0 or fprate=NaN) is implementation-defined in Go; the clamps minUint32(.,36000*8)/8 and minUint32(.,50) bound the result whatever it is (theorem C09_sizing_within_limits); values above are what this platform produced"
